@@ -27,3 +27,7 @@ void* call_cb_p(void* (*cb)(void*), void* p) { void* r = cb(p); lg(10, (long)(in
 double call_cb_d(double (*cb)(double, float), double d, float f) { double r = cb(d, f); lg(11, 0, 0); return r; }
 void call_cb_v(void (*cb)(int), int x) { cb(x); lg(12, x, 0); }
 unsigned long long call_cb_u(unsigned long long (*cb)(unsigned long long), unsigned long long x) { unsigned long long r = cb(x); lg(13, (long)x, (long)r); return r; }
+/* quiet variants (no shared log) for the multi-threaded workloads */
+long add_q(long a, long b) { return a + b + (LIBID - 1) * 1000; }
+int call_cb_q(int (*cb)(int), int x) { return cb(x); }
+int lib_id_q(void) { return LIBID; }
